@@ -7,7 +7,7 @@ import itertools
 import numpy as np
 
 from hyverif.oracles.flowgraph import FlowGraph
-from hyverif.props.c06 import CODES, gen_forest, shapes_upto
+from hyverif.props.c06 import CODES, INVALID, gen_forest, shapes_upto
 
 ID = "C11"
 SHARDS = {"quick": 16, "thorough": 16}
@@ -63,6 +63,10 @@ def make_grids(codes, field, nodata, fd_dtype="i8", ta_dtype="f8", layout="C",
     nr, nc = codes.shape
     fdt = FD_DTYPES[fd_dtype]
     if fd_dtype == "u1" and (codes.min() < 0 or codes.max() > 255):
+        fdt = np.int64
+    if fd_dtype == "i4" and (codes.min() < -2 ** 31 or codes.max() > 2 ** 31 - 1):
+        fdt = np.int64
+    if fd_dtype == "f8" and np.abs(codes).max() > 2 ** 53:
         fdt = np.int64
     fd = g.Grid("fd", nc, nr, dtype=fdt)
     fd.data = _layout(codes, layout)
@@ -208,6 +212,7 @@ def run(ctx):
                 ctx.info["exhaustive_complete"] = False
                 break
             codes = np.array(combo, dtype=np.int64).reshape((nr, nc))
+            codes[codes == 3] = INVALID[idx % len(INVALID)]
             model_cyc = FlowGraph(codes.tolist()).has_cycle()
             flds = fields_for(rng, nr, nc)
             if model_cyc:
@@ -246,7 +251,7 @@ def run(ctx):
                            "fieldname": nm, "nprint": [100, 1, 7][it % 3],
                            "layout": ["C", "F", "T", "S"][(it // 3) % 4],
                            "bounded": it % 2 == 0})
-        rc = rng.choice(CODES, size=(nr, nc))
+        rc = rng.choice(CODES + INVALID, size=(nr, nc))
         run_case(ctx, {"kind": "acc", "codes": rc.tolist(), "field": None,
                        "nodata": 0.0, "fieldname": "default"})
 
